@@ -507,7 +507,7 @@ func (p *Program) runPipeline(cfg *SolverCfg, tasks []Task) ([]*Oblig, []*Unit) 
 		close(ch2)
 		var wg2 sync.WaitGroup
 		big := *cfg
-		big.FullTimeout = 2 * cfg.FullTimeout
+		big.FullTimeout = 4 * cfg.FullTimeout
 		for w := 0; w < 4; w++ {
 			wg2.Add(1)
 			go func() {
